@@ -25,6 +25,24 @@ pub fn content_uri(s: &str) -> Content {
     }
 }
 
+/// A ContentId holding `s`, through its construction paths in turn (From<&str>, From<String>, assignment through AsMut)
+pub fn content_id(s: &str) -> ContentId {
+    static TURN: std::sync::atomic::AtomicUsize = std::sync::atomic::AtomicUsize::new(0);
+    match TURN.fetch_add(1, std::sync::atomic::Ordering::Relaxed) % 3 {
+        0 => ContentId::from(s),
+        1 => ContentId::from(s.to_string()),
+        _ => {
+            let mut c = ContentId::new();
+            let inner: &mut String = c.as_mut();
+            inner.push_str(s);
+            c
+        }
+    }
+}
+
+/// strings a ContentId / Content URI may hold: the text is opaque to the library (case, spaces, markup included)
+pub const URI_POOL: [&str; 8] = ["", "rbxassetid://1", "http://x/y?z=1&w=2", "RBXASSETID://12345", "Http://X/Y.PNG", "rbxasset://a b.png", " ", "no scheme at all"];
+
 /// ... always by assignment (no constructor between the generator and the value)
 pub fn content_direct(s: &str) -> Content {
     let mut c = Content::none();
@@ -337,7 +355,7 @@ pub fn value_of(ty: VariantType, rng: &mut StdRng, refs: &[Ref], xml_safe: bool)
         VariantType::Color3 => Variant::Color3(color3_any(rng)),
         VariantType::Color3uint8 => Variant::Color3uint8(Color3uint8::new(rng.gen(), rng.gen(), rng.gen())),
         VariantType::ColorSequence => Variant::ColorSequence(colorseq_min(rng, if xml_safe { 2 } else { 0 })),
-        VariantType::ContentId => Variant::ContentId(["", "rbxassetid://1", "http://x/y?z=1&w=2"][rng.gen_range(0..3)].into()),
+        VariantType::ContentId => Variant::ContentId(content_id(URI_POOL[rng.gen_range(0..URI_POOL.len())])),
         VariantType::Enum => Variant::Enum(Enum::from_u32(if rng.gen_bool(0.2) { rng.gen() } else { rng.gen_range(0..2000) })),
         VariantType::Float32 => Variant::Float32(f32_any(rng)),
         VariantType::Float64 => Variant::Float64(f64_any(rng)),
@@ -390,7 +408,7 @@ pub fn value_of(ty: VariantType, rng: &mut StdRng, refs: &[Ref], xml_safe: bool)
             0 => Content::none(),
             // rbx_xml cannot write object references (recorded finding); XML cases use URIs only
             1 if !xml_safe => Content::from_referent(pick_ref(rng)),
-            _ => content_uri(["rbxassetid://77", "", "rbxasset://a b.png"][rng.gen_range(0..3)]),
+            _ => content_uri(URI_POOL[rng.gen_range(0..URI_POOL.len())]),
         }),
         _ => return None,
     })
@@ -417,11 +435,11 @@ pub fn boundary_values(ty: VariantType, xml_safe: bool, k: usize) -> Vec<Variant
             [Vec::new(), vec![0u8], vec![0xff, 0x00, 0x7f], (0..=255u8).collect::<Vec<u8>>(), b"shared-one".to_vec()].into_iter().map(|b| Variant::SharedString(SharedString::new(b))),
         ),
         VariantType::Content => out.extend(
-            [Content::none(), content_uri(""), content_direct(""), content_uri("rbxassetid://77"), content_uri("rbxasset://a b.png"), content_direct("http://x/?a=1&b=<2>"), content_uri(" ")]
+            [Content::none(), content_uri(""), content_direct(""), content_uri("rbxassetid://77"), content_uri("rbxasset://a b.png"), content_direct("http://x/?a=1&b=<2>"), content_uri(" "), content_uri("RBXASSETID://12345"), content_direct("Http://X/Y.PNG")]
                 .into_iter()
                 .map(Variant::Content),
         ),
-        VariantType::ContentId => out.extend(["", " ", "rbxassetid://1", "http://x/y?z=1&w=<2>"].iter().map(|t| Variant::ContentId((*t).into()))),
+        VariantType::ContentId => out.extend(URI_POOL.iter().chain(["http://x/y?z=1&w=<2>"].iter()).map(|t| Variant::ContentId(content_id(t)))),
         VariantType::CFrame | VariantType::OptionalCFrame => {
             let mut ms = signed_permutations();
             let all = signed_permutations();
